@@ -197,6 +197,19 @@ def call_builtin(ex, name, args, kwargs, node):
         if isinstance(x, (Seq, ObjSeq, V.TupleSeq)):
             return x.len()
         raise OutOfSubset("len of %r" % (x,), node)
+    if name == "np.concatenate":
+        # np.concatenate((a, b, ...)) of 1-D sequences (rows of a 2-D sample array count as elements, axis=0): the concatenation in order
+        parts = args[0] if args else None
+        ax = kwargs.get("axis", args[1] if len(args) > 1 else 0)
+        if isinstance(parts, Seq) and parts.concrete and len(parts.items) >= 1 and all(isinstance(p_, Seq) for p_ in parts.items) and ax == 0:
+            out = parts.items[0]
+            if len(parts.items) == 1:
+                return Seq("array", None, out.to_symbolic().len(), out.to_symbolic().arr)
+            for p_ in parts.items[1:]:
+                out = ex.seq_concat(out, p_, node)
+            out.kind = "array"
+            return out
+        raise OutOfSubset("np.concatenate of %r" % (parts,), node)
     if name == "range":
         if len(args) == 1:
             return RangeV(0, args[0])
